@@ -4,6 +4,7 @@
  *   J1  fetch_or(REQ_JOIN) on T's request word   (thread_join; if the bit was already set J falls back to polling and never links)
  *   J2  the real ABTI_ythread_callback_suspend_join (J becomes BLOCKED, counted, and publishes its context in T->ctx.p_link)
  * J last ran on T's stream (same-stream hand-off: T jumps straight into J) or on another one (T re-pushes J) -- symbolic.
+ * With -DCANCEL the focus is the real ABTI_thread_handle_request_cancel instead (T is cancelled while it sits in a pool).
  * Checked at the final jump of T (it never returns): exactly one of {jump into J, push J, nothing} happened, and "nothing" only
  * if J never linked; J is RUNNING on T's stream after a direct jump (not also queued), READY and queued exactly once after a
  * push; J's blocked count is balanced; T ends TERMINATED through the real exit callback; J is never woken before it is BLOCKED. */
@@ -31,7 +32,11 @@ static void final_checks(void)
     int pushed = sp_in[0];
     if (j_pc == 2) {
         VR_ASSERT(jumped_to_joiner + pushed == 1, "a linked joiner is woken exactly once: either T jumps into it or T re-pushes it -- never both, never neither");
-        if (jumped_to_joiner) { VR_ASSERT(j_same_stream, "a direct jump only into a joiner of the same stream"); VR_ASSERT(ULT0.thread.state.val == ABT_THREAD_STATE_RUNNING && ES1.p_thread == &ULT0.thread, "after the jump the joiner is RUNNING on T's stream"); VR_WITNESS("same-stream hand-off: T jumped into its joiner"); }
+        if (jumped_to_joiner) { VR_ASSERT(j_same_stream, "a direct jump only into a joiner of the same stream"); VR_ASSERT(ULT0.thread.state.val == ABT_THREAD_STATE_RUNNING && ES1.p_thread == &ULT0.thread, "after the jump the joiner is RUNNING on T's stream");
+#ifndef CANCEL
+            VR_WITNESS("same-stream hand-off: T jumped into its joiner");
+#endif
+        }
         else { VR_ASSERT(ULT0.thread.state.val == ABT_THREAD_STATE_READY, "a re-pushed joiner is READY"); VR_WITNESS("joiner of another stream re-pushed"); }
         VR_ASSERT(PL0.num_blocked.val == 0, "the joiner no longer counts as blocked");
     } else {
@@ -67,7 +72,17 @@ int main(void)
     if (pre >= 1) { ULT1.thread.request.val |= ABTI_THREAD_REQ_JOIN; j_pc = 1; }
     if (pre == 2) { JARG.p_prev = &ULT0; JARG.p_target = &ULT1; ES0.p_thread = &SCHED0.thread; ABTI_ythread_callback_suspend_join(&JARG); j_pc = 2; }
     vr_in_init = 0; as_agent(1);
+#ifdef CANCEL
+    /* T was popped by ES1's scheduler with a cancel request pending: the scheduler runs the real cancel handler (it returns) */
+    ULT1.thread.state.val = ABT_THREAD_STATE_READY; ES1.p_thread = &SCHED1.thread; ULT1.thread.request.val |= ABTI_THREAD_REQ_CANCEL;
+    ABTI_thread_handle_request_cancel(&G, &ES1, &ULT1.thread);
+    if (nondet_bool()) env_step();
+    vr_in_init = 1;
+    VR_ASSERT(!jumped_to_joiner && !jumped_to_parent, "the cancel handler does not switch contexts");
+    final_checks();
+#else
     ABTI_ythread_exit(&ES1, &ULT1);
     VR_ASSERT(0, "ABTI_ythread_exit never returns");
+#endif
     return 0;
 }
